@@ -398,13 +398,24 @@ pub fn gen_c15(seed: u64, thorough: bool) -> Scenario {
     // inscriptions activate after genesis: earlier blocks are fetched as
     // headers and outputs created in them come from the node. Real chains
     // have nothing ord-relevant before that height, so neither does this one.
-    let h = 2 + crng.below(8) as u32;
+    let h = (2 + crng.below(12) as u32).min(blocks.len() as u32 - 2).max(2);
     config.first_inscription_height = Some(h);
     if crng.chance(1, 2) {
       config.chain = ChainKind::Signet;
     }
     for b in blocks.iter_mut().take(h as usize - 1) {
       b.txs.clear();
+      // outputs of different values, so that a value fetched for the wrong
+      // outpoint is a different value
+      if crng.chance(2, 3) {
+        b.coinbase.outputs = (0..1 + crng.usize(3))
+          .map(|i| OutSpec {
+            weight: 1 + crng.below(5) as u32 + i as u32,
+            exact: None,
+            script: ScriptSpec::P2tr(crng.below(40) as u16),
+          })
+          .collect();
+      }
     }
   }
   let mut ops = schedule_ops(&mut srng, blocks, fetch_path, false, true);
